@@ -69,7 +69,15 @@ def run(ctx):
             diffs.append({"suite": "ser", "input_hex": t.hex(), "input": t.decode("latin-1"), "impl": want[:300], "model": m[:300]})
     table = table_of(ctx)
 
+    tdict = {d["name"]: d for d in table}
+
     def matcher(f, v):
+        if f.get("match", {}).get("kind") == "optional-tag-slot-filled-twice":
+            import oracle_generic, prop_C03
+            try:
+                return prop_C03.repeats_slot(oracle_generic.parse(bytes.fromhex(v["input_hex"])), tdict)
+            except oracle_generic.GenericError:
+                return False
         if f.get("match", {}).get("kind") == "trailing-tag-without-parameter":
             return v["what"].startswith("printed text is rejected") and trailing_tag_without_param(bytes.fromhex(v["input_hex"]), table)
         return False
